@@ -16,7 +16,7 @@ def family(pid, tier, seed):
         n, exh, rnd = (24, 3, 60) if quick else (300, 4, 250)
         for i in range(n):
             kinds = [[], ["token", "tokens"], ["int8"], ["token", "tokens", "int8"]][i % 4]
-            g = GG.make_grammar(rng, "g%d" % i, extra_kinds=kinds, ks=(0, 1, 2, 3, 50, -1) if i % 3 == 0 else (0, 1, 2, -1))
+            g = GG.make_grammar(rng, "g%d" % i, extra_kinds=kinds, ks=(0, 1, 2, 3, 99999, -1, -3) if i % 3 == 0 else (0, 1, 2, -1))
             seen = set()
             GG.exhaustive_inputs(g, exh if i % 2 == 0 or not quick else 2, seen, extra_terms=("A",) if g["ci"] else ())
             GG.random_inputs(g, rng, rnd, 8, seen)
@@ -55,7 +55,7 @@ def family(pid, tier, seed):
     elif pid == "C13":
         n, exh, rnd = (24, 3, 60) if quick else (300, 4, 250)
         for i in range(n):
-            g = GG.make_grammar(rng, "g%d" % i, extra_kinds=["int8"] if i % 3 == 0 else [], neglook=False, ks=(0, 1, 2, 3, 4, 50, -1))
+            g = GG.make_grammar(rng, "g%d" % i, extra_kinds=["int8"] if i % 3 == 0 else [], neglook=False, ks=(0, 1, 2, 3, 4, 99999, -1, -2))
             seen = set()
             GG.exhaustive_inputs(g, exh, seen)
             GG.random_inputs(g, rng, rnd, 9, seen)
@@ -252,7 +252,7 @@ def run(pid, tier, args):
                         if ra is None or not ra.startswith("ok"):
                             continue
                         for b in ks:
-                            stronger = a != b and (b == -1 or (a != -1 and a < b))
+                            stronger = a != b and (b < 0 or (a >= 0 and a < b))
                             if not stronger:
                                 continue
                             nrel += 1
